@@ -438,7 +438,7 @@ theorem execNB_single (X : Ext) {m : Nat} {s : TStmt} {σ : TSt} {r : Out × TSt
   obtain ⟨o, τ⟩ := r
   simp only [execNB]
   rw [execN_mono X h (by omega : m ≤ m + 1)]
-  cases o <;> simp [execNB]
+  cases o <;> simp
 
 def undefAll (us : List Name) (σ : TSt) : TSt := us.foldl (fun σ u => σ.setSlot u .undef) σ
 
@@ -457,7 +457,7 @@ theorem undefAll_env : ∀ (us : List Name) (σ : TSt) (x : Name),
       by_cases h1 : x ∈ us
       · simp [h1]
       · by_cases h2 : x = u
-        · simp [h1, h2, TSt.setSlot]
+        · simp [h2, TSt.setSlot]
         · simp [h1, h2, TSt.setSlot]
 
 theorem execNB_undefs (X : Ext) : ∀ (us : List Name) (σ : TSt) (b : TBlock) (m : Nat) (r : Out × TSt),
